@@ -7,6 +7,7 @@ require (
 	github.com/klauspost/compress v1.10.4
 	github.com/vmihailenco/msgpack v4.0.4+incompatible
 	go.uber.org/zap v1.15.0
+	google.golang.org/grpc v1.46.2
 )
 
 require (
@@ -28,7 +29,6 @@ require (
 	golang.org/x/text v0.3.7 // indirect
 	gonum.org/v1/gonum v0.0.0-20190618015908-5dc218f86579 // indirect
 	google.golang.org/genproto v0.0.0-20220527130721-00d5c0f3be58 // indirect
-	google.golang.org/grpc v1.46.2 // indirect
 	google.golang.org/protobuf v1.28.0 // indirect
 	gopkg.in/yaml.v2 v2.4.0 // indirect
 )
